@@ -182,6 +182,28 @@ Example C10_withdrawn_requests :
   strictly_accepted (judge minit sinit (snd (run init c10_withdraw))) = true.
 Proof. vm_compute. split; reflexivity. Qed.
 
+(* An entity announced again WITHOUT its features keeps its registry entries (AddEntityAndFeatures
+   empties the feature list, the registries are not touched) and the teardown still removes them:
+   connection 1 subscribes and binds from entity [1], announces [1] again with no feature
+   information, its listing still shows the subscription; the disconnect publishes one removal event
+   per entry (their client-feature part is empty: the feature is no longer in the tree), the listings
+   are empty afterwards; every step is strictly accepted. *)
+Definition bare_again (d : N) : disc_msg :=
+  {| dm_dev := Some d; dm_ents := [ {| de_addr := [1%N]; de_dev := None; de_state := Some SAdded |} ]; dm_feats := [] |}.
+Definition rcall : reg_call := {| rc_cli := a (Some 1%N) [1%N] 1; rc_srv := a (Some 0%N) [1%N] 1; rc_type := Some 1%N |}.
+Definition c10_reannounce : list op :=
+  [ AddLocalEntity [1%N]; AddLocalFeature [1%N] 1 RServer;
+    Connect 1; DiscoveryReply 1 (tree 1); SubCall 1 101 false rcall; BindCall 1 102 false rcall;
+    DiscoveryNotify 1 103 false (bare_again 1); ListSubs 1; Disconnect 1; ListSubs 1; ListBinds 1 ].
+Example C10_reannounced_entity_torn_down :
+  map (fun x => length (snd x)) (skipn 7 (snd (run init c10_reannounce))) = [1; 3; 0; 0]%nat /\
+  filter (fun o => match o with OEvent EvSub ChRemove _ _ _ _ | OEvent EvBind ChRemove _ _ _ _ => true | _ => false end)
+         (snd (nth 8 (snd (run init c10_reannounce)) (Disconnect 1, []))) =
+    [ OEvent EvSub ChRemove 1 (Some [1%N]) None (Some (a (Some 0%N) [1%N] 1));
+      OEvent EvBind ChRemove 1 (Some [1%N]) None (Some (a (Some 0%N) [1%N] 1)) ] /\
+  strictly_accepted (judge minit sinit (snd (run init c10_reannounce))) = true.
+Proof. vm_compute. repeat split; reflexivity. Qed.
+
 (* ---------- "... including while messages of other peers are being processed" ---------- *)
 
 (* Histories may contain [During a b] (Model/StackX.v): while the teardown a of peer p runs
